@@ -20,6 +20,7 @@ Nothing outside the scratch directory is read or modified: the jail refuses such
 import asyncio
 import contextlib
 import errno
+import functools
 import hashlib
 import logging
 import mimetypes
@@ -102,6 +103,7 @@ def tok_to_str(tok):
     return s or "."
 
 
+@functools.lru_cache(maxsize=256)
 def content_of(n):
     return bytes((i * 37 + (i >> 8) * 11 + n) & 0xFF for i in range(n))
 
@@ -109,12 +111,19 @@ def content_of(n):
 # ------------------------------------------------------------------ scratch tree -------
 
 
+def scratch_dir(prefix):
+    """a fresh directory outside /repo and /verif; on the memory file system when there is one (the histories
+    create and remove some ten thousand files)"""
+    base = "/dev/shm" if os.path.isdir("/dev/shm") and os.access("/dev/shm", os.W_OK | os.X_OK) else None
+    return os.path.realpath(tempfile.mkdtemp(prefix=prefix, dir=base))
+
+
 class Scratch:
     """A directory outside /repo and /verif: `<scratch>/srv` is the server's root,
     `<scratch>/outside.txt` a neighbour that must never be touched."""
 
     def __init__(self, env):
-        d = os.path.realpath(tempfile.mkdtemp(prefix="c19-"))
+        d = scratch_dir("c19-")
         for forbidden in ("/repo", "/verif", VERIF, env.repo):
             if inside(d, os.path.realpath(forbidden)):
                 shutil.rmtree(d)
@@ -152,6 +161,58 @@ class Scratch:
         except OSError:
             os.mkfifo(self.root + "/sock")
         self.pristine = self.tree_hash()
+
+    def spec(self):
+        """what build() puts below the scratch directory: {relative path: bytes | "dir" | "node"}"""
+        out = {"outside.txt": b"secret outside the root", "srv.bak": b"secret backup beside the root",
+               "srv": "dir", "srv/d": "dir", "srv/d/e": "dir", "srv/d/sub": "dir", "srv/sock": "node"}
+        for sib in ("srv-private", "srv2"):
+            out[sib] = "dir"
+            out[sib + "/secret.txt"] = b"secret in a sibling directory"
+        for n in SIZES:
+            out[f"srv/f{n}"] = content_of(n)
+        for name, n in (("d/x.txt", 33), ("d/sub/deep.txt", 100), ("é.txt", 5), (LONG255, 3)):
+            out["srv/" + name] = content_of(n)
+        return out
+
+    def restore(self):
+        """Bring the tree back to what build() made, touching only what differs (a full rebuild costs some
+        hundred unlink/rmdir calls); any surprise falls back to build()."""
+        try:
+            spec = self.spec()
+            seen = set()
+            for dirpath, dirnames, filenames in os.walk(self.dir, topdown=False):
+                for name in filenames + dirnames:
+                    p = os.path.join(dirpath, name)
+                    rel = os.path.relpath(p, self.dir)
+                    want = spec.get(rel)
+                    st = os.lstat(p)
+                    if want is None or (want == "dir") != statmod.S_ISDIR(st.st_mode) or \
+                            (want == "node") != (not statmod.S_ISDIR(st.st_mode) and not statmod.S_ISREG(st.st_mode)):
+                        if statmod.S_ISDIR(st.st_mode):
+                            shutil.rmtree(p)
+                        else:
+                            os.unlink(p)
+                        continue
+                    if isinstance(want, bytes):
+                        with open(p, "rb") as f:
+                            if f.read() != want:
+                                with open(p, "wb") as g:
+                                    g.write(want)
+                    seen.add(rel)
+            for rel in sorted(set(spec) - seen):
+                want = spec[rel]
+                p = os.path.join(self.dir, rel)
+                if want == "dir":
+                    os.makedirs(p, exist_ok=True)
+                elif want == "node":
+                    raise OSError("special node missing")
+                else:
+                    with open(p, "wb") as f:
+                        f.write(want)
+            self.pristine = self.tree_hash()
+        except OSError:
+            self.build()
 
     def tree_hash(self):
         """names, types, and for files size/mtime/inode/content (directory mtimes excluded: a
@@ -418,6 +479,9 @@ class Runner:
         self.loop = VirtualLoop()
         asyncio.set_event_loop(self.loop)
         self.live = []            # tasks belonging to the server under test
+        self.observers = []       # ... those of them that render for an open observation
+        self.last_hash = None     # the tree's hash after the last step of the previous history, when known
+        self.last_cli = None
         self.prog = None
         self.mtime = 1_700_000_000_000_000_000
         self.home = os.getcwd()
@@ -496,11 +560,14 @@ class Runner:
             A.Context.create_server_context = saved_csc
             sys.argv = saved_argv
             logging.root.handlers[:] = saved_handlers
+        self.last_cli = "usage"
         if prog is None:
             self.end_server()
             return None
         if len(captured) != 1:
             raise HarnessError(f"FileServerProgram created {len(captured)} server contexts")
+        site = captured[0]
+        self.last_cli = f"ok write={int(bool(site.write))} etag={site.etag_length} root={pure_tok(site.root)}"
         self.prog = prog
         __import__("common").quiet(logging.getLogger("fileserver"))
         return captured[0]
@@ -515,6 +582,7 @@ class Runner:
             except Exception:
                 pass
         live, self.live = self.live, []
+        self.observers = []
         for t in live:
             t.cancel()
         if live:
@@ -600,6 +668,7 @@ class Runner:
             self.await_(asyncio.gather(task, return_exceptions=True))
         else:
             self.live.append(task)          # the observation stays open until the history ends
+            self.observers.append(task)
         if resp is None and exc is None:
             raise HarnessError("observed GET produced neither response nor exception")
         return resp, exc
@@ -610,8 +679,9 @@ class Runner:
         """Returns a list of per-step dicts {line, impl, verdicts[(text,key)], ...}, or None when the
         command line of the case was refused by the program's parser (no server)."""
         sc = self.sc
-        if sc.tree_hash() != sc.pristine:
-            sc.build()
+        if self.last_hash != sc.pristine and sc.tree_hash() != sc.pristine:
+            sc.restore()
+        self.last_hash = None
         try:
             fs = self.start_server(case)
             if fs is None:
@@ -629,26 +699,42 @@ class Runner:
             write = cli_grants_write(argv)
             etags = case["etags"]
         relroot = argv is not None and ROOTARG not in argv
+        mpaths = model_paths or {}
+        hist_paths = sorted({mpaths[tuple(expand(s["comps"], sc))] for s in case["steps"]
+                             if "comps" in s and mpaths.get(tuple(expand(s["comps"], sc)))})
+        nroot = len(self.root_tok.split(":")[1].split(","))
+
+        def model_form(mp):
+            """the path as the model of THIS server names it (relative when the root is `.`)"""
+            return "0:" + ",".join(mp.split(":")[1].split(",")[nroot:]) if relroot else mp
         before = sc.pristine
         results = []
+        last_content = b""         # content field of the previous R event (`=` stands for it)
         for step in case["steps"]:
             method = step["m"]
             jail = sc.jail
             if method == "LW":
                 how = self.local_write(step)
                 before = sc.tree_hash()
-                results.append({"line": None, "impl": "", "verdicts": [], "outcome": "local:" + how, "ops": [],
+                results.append({"events": [], "verdicts": [], "outcome": "local:" + how, "ops": [],
                                 "resp": None, "stat": "-", "payload": None, "more": False, "disk": None})
                 continue
             comps = expand(step.get("comps", []), sc)
             verdicts = []
+            events = []
             resp = None
             disk = None
-            line = None
             outcome, b2s, pl, nba = "crash", "-", "-", "?"
             w = {"stat": "-"}
             if method == "TICK":
                 # ten seconds pass: one round of check_files_for_refreshes (and whatever it sets off)
+                gone = []
+                for mp in hist_paths:
+                    try:
+                        os.stat(tok_to_str(mp))
+                    except (OSError, ValueError):
+                        gone.append(model_form(mp))
+                watchers = any(not t.done() for t in self.observers)
                 jail.log, jail.refused = [], []
                 with jail:
                     try:
@@ -657,7 +743,7 @@ class Runner:
                     except Refused:
                         outcome = "crash"
             else:
-                mp = (model_paths or {}).get(tuple(comps))
+                mp = mpaths.get(tuple(comps))
                 # what the OS would say about the path the model computed (model lines only)
                 w = sc.inspect(tok_to_str(mp)) if mp else sc.inspect("/nonexistent-outside")
                 naive = sc.root + "/" + "/".join(comps)
@@ -672,11 +758,7 @@ class Runner:
                 etv = if_match_values(step.get("et", ()), etag_now)
                 em = bool(w["st"] is not None and etags and fs.hash_stat(w["st"]) in etv)
                 hit = bool(w["st"] is not None and etags and fs.hash_stat(w["st"]) in imv)
-                ent = [v for k, v in fs._observations.items() if mp is not None and path_tok(str(k)) == mp]
-                obs = bool(ent and ent[0][0] is None)
                 b2 = step.get("b2")
-                if method == "OGET" and (b2 is None or b2[0] == 0) and mp is not None and not ent:
-                    obs = True                     # this request registers the observation before it is rendered
                 payload = content_of(step.get("plen", 0))[::-1]
                 req = impl.request("GET" if method in ("OBS", "OGET") else method, comps, payload,
                                    step.get("inm", False), imv, etv, b2, observe=0 if method == "OGET" else None)
@@ -716,6 +798,7 @@ class Runner:
             after = sc.tree_hash()
             # ---- oracle -------------------------------------------------------------
             what = f"{method} {comps!r}" if method != "TICK" else "the refresh tick"
+            cl = f" (command line {argv!r})" if argv is not None else ""
             for e in jail.refused:
                 verdicts.append((f"{what}: {e['fn']}({e['abs']}) outside the scratch "
                                  f"directory was attempted (refused)", "outside-scratch:" + e["fn"]))
@@ -726,17 +809,14 @@ class Runner:
                                          f"{sc.root}", "outside-root:" + e["fn"]))
             if not write:
                 if after != before:
-                    verdicts.append((f"{what} changed the tree although the server has no write permission"
-                                     + (f" (command line {argv!r})" if argv is not None else ""),
+                    verdicts.append((f"{what} changed the tree although the server has no write permission" + cl,
                                      "modified-without-write:" + method))
                 mods = [e["fn"] for e in jail.log if entry_modifies(e)]
                 if mods:
                     verdicts.append((f"{what} made modifying calls {mods} although the server has no write "
-                                     f"permission" + (f" (command line {argv!r})" if argv is not None else ""),
-                                     "modifying-call-without-write:" + method))
+                                     f"permission" + cl, "modifying-call-without-write:" + method))
                 if method in ("PUT", "DELETE") and outcome[0] not in "45c":
-                    verdicts.append((f"{what} was answered {outcome} by a server without write permission"
-                                     + (f" (command line {argv!r})" if argv is not None else ""),
+                    verdicts.append((f"{what} was answered {outcome} by a server without write permission" + cl,
                                      "write-not-refused:" + method))
             if method not in ("OBS", "TICK") and naive_escapes(sc.root, comps):
                 if outcome[0] not in "45c":
@@ -750,25 +830,35 @@ class Runner:
                 if v:
                     verdicts.append((f"{what}" + (f" Block2 {step['b2']}" if step.get("b2") else "") + ": " + v,
                                      "block-not-file-slice"))
-            # ---- model line ---------------------------------------------------------
-            if method not in ("OBS", "TICK") and not (method == "OGET" and nba != "0"):
+            # ---- model events -------------------------------------------------------
+            if method == "TICK":
+                # a live observer re-renders its resource when the round notices a change: those accesses belong
+                # to requests of the library, not to the round -- judged by the oracle above, not compared
+                events.append({"tok": "K;" + ("|".join(gone) or "~"), "cmp": not watchers and outcome == "tick",
+                               "impl": " ".join(["tick", "|"] + ops)})
+            elif method == "OBS":
+                events.append({"tok": "O;" + comps_tok(comps), "cmp": True, "impl": outcome})
+            else:
+                if method == "OGET" and (b2 is None or b2[0] == 0):
+                    events.append({"tok": "O;" + comps_tok(comps), "cmp": False, "impl": ""})
                 ml = MLETTER.get("GET" if method == "OGET" else method, "X")
                 im = step.get("im", ())
-                b2 = step.get("b2")
                 ch = "~" if not w["children"] else ",".join(f"{hx(n)}:{1 if d else 0}"
                                                             for n, d in w["children"])
-                line = (f"C19 R {int(write)}{int(etags)} {'0:' if relroot else self.root_tok} {ml} "
-                        f"{comps_tok(comps)} "
-                        f"{int(bool(step.get('inm')))}{int(bool(im))}{int('empty' in im)} "
-                        f"{'-' if b2 is None else f'{b2[0]}:{b2[1]}'} {w['stat']} "
-                        f"{int(em)}{int(hit)}{int(obs)}{int(w['pdir'])} {hx(tmp) if tmp else '-'} "
-                        f"{ch} {w['content'].hex() or '-'}")
-            implout = " ".join([outcome, b2s, pl, "nba=" + nba, "|"] + ops)
-            results.append({"line": line, "impl": implout, "verdicts": verdicts, "outcome": outcome,
+                tok = (f"R;{ml};{comps_tok(comps)};"
+                       f"{int(bool(step.get('inm')))}{int(bool(im))}{int('empty' in im)};"
+                       f"{'-' if b2 is None else f'{b2[0]}:{b2[1]}'};{w['stat']};"
+                       f"{int(em)}{int(hit)}{int(w['pdir'])};{hx(tmp) if tmp else '-'};"
+                       f"{ch};{'=' if w['content'] == last_content else w['content'].hex() or '-'}")
+                last_content = w["content"]
+                events.append({"tok": tok, "cmp": not (method == "OGET" and nba != "0"),
+                               "impl": " ".join([outcome, b2s, pl, "nba=" + nba, "|"] + ops)})
+            results.append({"events": events, "verdicts": verdicts, "outcome": outcome,
                             "ops": ops, "resp": resp, "stat": w["stat"], "disk": disk,
                             "payload": None if resp is None else resp.payload,
                             "more": bool(resp is not None and resp.opt.block2 is not None and resp.opt.block2.more)})
             before = after
+        self.last_hash = before
         return results
 
 
@@ -963,7 +1053,7 @@ def mutation_cases(env):
     def mk(s1, s2, how, obs, tick, szx):
         out.append({"kind": "M", "s1": s1, "s2": s2, "how": how, "obs": obs, "tick": tick, "szx": szx})
     if env.thorough:
-        for s1, s2 in M_PAIRS + [(100, 1500), (1500, 100)]:
+        for s1, s2 in M_PAIRS + [(100, 600), (600, 100)]:
             for how in M_HOW:
                 for obs in M_OBS:
                     for tick in M_TICK:
@@ -971,7 +1061,7 @@ def mutation_cases(env):
                             mk(s1, s2, how, obs, tick, szx)
         return out
     n = 0
-    for s1, s2 in ((100, 1500), (1500, 100)):
+    for s1, s2 in ((100, 600), (600, 100)):
         for how in M_HOW:
             for obs in M_OBS:
                 for szx in range(8):
@@ -1180,7 +1270,7 @@ def bare_root_cases(env, rep, impl):
     enabled: requests that fail half way (a name the OS refuses in a directory that does not exist yet, a missing
     file, a path outside) must leave the root itself, its parent and the neighbour `<tmp>/keep` as they were.
     Oracle only (the model's tree is never empty)."""
-    d = os.path.realpath(tempfile.mkdtemp(prefix="c19-bare-"))
+    d = scratch_dir("c19-bare-")
     try:
         for forbidden in ("/repo", "/verif", VERIF, env.repo):
             if inside(d, os.path.realpath(forbidden)):
@@ -1273,32 +1363,73 @@ def run(env, rep):
         mouts = env.lean([f"C19 P {runner.root_tok} {comps_tok(c)}" for c in allcomps])
         model_paths = {c: (o[3:] if o.startswith("ok ") else None) for c, o in zip(allcomps, mouts)}
 
-        cases, lines, outs = [], [], []
+        # --- A: what the command line makes of the server (model of the parser vs the program's own start-up)
+        argvs = sorted({tuple(c["argv"]) for c in hist if c.get("argv") is not None})
+        aouts = env.lean(["C19 A " + " ".join(hx(runner.sc.root if a == ROOTARG else a) for a in av)
+                          for av in argvs])
+        cli_model = dict(zip(argvs, aouts))
+        cli_impl = {}
+
+        pending = []          # (history, sub-cases per step, results) waiting for the model
+        npending = [0]
 
         def flush():
-            if lines:
-                compare(env, rep, list(cases), list(lines), list(outs), what="FileServer.render")
-                cases.clear(), lines.clear(), outs.clear()
+            """one `C19 H` line per history; the model's outputs are compared event by event"""
+            batch = []
+            for c, subs, results in pending:
+                if c.get("argv") is None:
+                    cfg = f"{int(c['write'])}{int(c['etags'])} {runner.root_tok}"
+                else:
+                    m = cli_model[tuple(c["argv"])]
+                    if not m.startswith("ok "):
+                        rep.out_of_model += 1
+                        rep.count("S:history-not-compared:" + m)
+                        continue
+                    f = dict(x.split("=") for x in m.split(" ")[1:])
+                    cfg = f"{f['write']}{int(f['etag'] != '0')} {f['root']}"
+                evs = [(i, e) for i, r in enumerate(results) for e in r["events"]]
+                if evs:
+                    batch.append((subs, evs, f"C19 H {cfg} " + " ".join(e["tok"] for _, e in evs)))
+            pending.clear()
+            mouts = env.lean([line for _, _, line in batch])
+            for (subs, evs, line), mout in zip(batch, mouts):
+                if mout == "bad-op":
+                    raise HarnessError(f"driver rejected line: {line[:300]}")
+                parts = mout.split(" ;; ")
+                if len(parts) != len(evs):
+                    raise HarnessError(f"driver returned {len(parts)} outputs for {len(evs)} events")
+                for (i, e), m in zip(evs, parts):
+                    if not e["cmp"]:
+                        continue
+                    rep.traces += 1
+                    if m != e["impl"]:
+                        rep.disagree({"case": subs[i], "line": line[:2000], "event": e["tok"][:300]},
+                                     m[:2000], e["impl"][:2000], "FileServer history")
 
-        def run_hist(c):
+        def run_hist(c, single=False):
             results = runner.run_history(c, model_paths)
             if c.get("argv") is not None:
                 rep.count("S:started" if results is not None else "S:parser-refused")
                 rep.count("S:write-permission=%d" % cli_grants_write(c["argv"]))
                 rep.count("S:root=" + ("argument" if ROOTARG in c["argv"] else "working-directory"))
+                cli_impl[tuple(c["argv"])] = runner.last_cli
             if results is None:
                 rep.case(c, nontrivial=False)
                 return None
-            indep = not c["write"] and c.get("argv") is None and \
-                all(s["m"] in ("GET", "PUT", "DELETE", "POST", "FETCH", "PATCH", "iPATCH") for s in c["steps"])
+            indep = single or (not c["write"] and c.get("argv") is None and
+                               all(s["m"] in ("GET", "PUT", "DELETE", "POST", "FETCH", "PATCH", "iPATCH")
+                                   for s in c["steps"]))
+            subs = []
             for i, res in enumerate(results):
                 sub = {**c, "steps": [c["steps"][i]] if indep else c["steps"][: i + 1]}
+                subs.append(sub)
                 register(rep, sub, res)
                 rep.count("R:method=" + c["steps"][i]["m"])
                 rep.count("R:write=%d" % c["write"])
-                if res["line"] is not None:
-                    cases.append(sub), lines.append(res["line"]), outs.append(res["impl"])
-            if len(lines) > 3000:
+            pending.append((c, subs, [{"events": r["events"]} for r in results]))
+            npending[0] += len(results)
+            if npending[0] > 9000:
+                npending[0] = 0
                 flush()
             return results
 
@@ -1315,21 +1446,30 @@ def run(env, rep):
                 ofail(rep, mc, v + f" (after: {mc['s1']} bytes, observation {mc['obs']}, tick {mc['tick']}, "
                       f"replaced via {mc['how']} by {mc['s2']} bytes)", f"blockwise-mismatch-after-change:szx={mc['szx']}")
         for fc in fcs:
-            h = fetch_history(fc)
-            results = runner.run_history(h, model_paths)
-            for i, res in enumerate(results):
-                sub = {**h, "steps": [h["steps"][i]]}
-                register(rep, sub, res)
-                rep.count("R:method=GET")
-                rep.count("F:szx=%d" % fc["szx"])
-                cases.append(sub), lines.append(res["line"]), outs.append(res["impl"])
+            results = run_hist(fetch_history(fc), single=True)
+            rep.count("F:szx=%d" % fc["szx"], len(results))
             v = fetch_oracle(fc, results)
             rep.case(fc, nontrivial=True)
             if v:
                 ofail(rep, fc, v, f"blockwise-mismatch:szx={fc['szx']}")
-            if len(lines) > 1500:
-                flush()
         flush()
+        # the A lines: the parser model against what the program's own start-up built
+        for av in argvs:
+            if av not in cli_impl:
+                continue
+            case = {"kind": "A", "argv": list(av)}
+            rep.case(case, nontrivial=True, sample_every=50)
+            rep.count("A:" + cli_impl[av].split(" ")[0])
+            m = cli_model[av]
+            if m == "bad-op":
+                raise HarnessError(f"driver rejected the command line {av!r}")
+            if m == "out-of-model":
+                rep.out_of_model += 1
+                continue
+            rep.traces += 1
+            if m != cli_impl[av]:
+                rep.disagree({"case": case, "line": "C19 A " + " ".join(hx(a) for a in av)}, m, cli_impl[av],
+                             "command line")
         rep.exhaustive_parts.append("every block (and two past the end) of every boundary-size file for szx 0..7")
         rep.exhaustive_parts.append("all Uri-Path lists of length <= 2 over 15 symbols and length 3 over 6 symbols")
         for k in () if (rep.oracle_failures or rep.disagreements) else ("R:outcome=2.05", "R:outcome=4.00", "R:outcome=2.04", "R:outcome=2.02", "R:outcome=4.03",
@@ -1368,9 +1508,9 @@ def replay(env, case):
         return sink.failures[0] if sink.failures else ""
     if kind == "P":
         impl = Impl(env)
-        d = tempfile.mkdtemp(prefix="c19-")
+        d = scratch_dir("c19-")
         try:
-            o = impl_localpath(impl, case["root"], case["comps"], Jail(os.path.realpath(d)))
+            o = impl_localpath(impl, case["root"], case["comps"], Jail(d))
         finally:
             shutil.rmtree(d, ignore_errors=True)
         if o.startswith("ok"):
